@@ -138,7 +138,44 @@ def tok_equal(x, y):
         return False
     n, d = y.split('/')
     ry = Fraction(int(n), int(d))
-    return abs(rx - ry) <= abs(ry) * Fraction(1, 2 ** 20)
+    # mean / weighted mean: an exact sum divided once.  The library's value must be the CORRECTLY ROUNDED
+    # quotient in the precision it works in: float64, float32, or float64 then cast to float32 (numpy divides a
+    # float32 sum by an integer count in float64 and casts).  No tolerance.
+    global EXACT_RATIONAL_MATCHES, LOOSE_RATIONAL_MATCHES
+    if rx in (round_to(ry, 53), round_to(ry, 24), round_to(round_to(ry, 53), 24)):
+        EXACT_RATIONAL_MATCHES += 1
+        return True
+    if os.environ.get('VERIF_LOOSE_RATIONALS') and abs(rx - ry) <= abs(ry) * Fraction(1, 2 ** 20):
+        LOOSE_RATIONAL_MATCHES += 1
+        return True
+    return False
+
+
+EXACT_RATIONAL_MATCHES = 0
+LOOSE_RATIONAL_MATCHES = 0
+
+
+def round_to(q, p):
+    """the rational q rounded to p significant bits, ties to even (exponent range ignored: the values
+    compared are far from the subnormal / overflow range)"""
+    from fractions import Fraction
+    if q == 0:
+        return q
+    sgn = -1 if q < 0 else 1
+    a = abs(q)
+    # e with 2^(e) <= a < 2^(e+1)
+    e = a.numerator.bit_length() - a.denominator.bit_length()
+    if Fraction(2) ** e > a:
+        e -= 1
+    elif Fraction(2) ** (e + 1) <= a:
+        e += 1
+    scale = Fraction(2) ** (p - 1 - e)
+    t = a * scale                      # in [2^(p-1), 2^p)
+    fl = t.numerator // t.denominator
+    rem = t - fl
+    if rem > Fraction(1, 2) or (rem == Fraction(1, 2) and fl % 2 == 1):
+        fl += 1
+    return sgn * Fraction(fl) / scale
 
 
 def to_fraction(t):
